@@ -5,6 +5,15 @@
 //    detector; the PlatformSpecificMutexLock/Unlock seams are wrapped (owner tracking, lock log,
 //    yield/sleep injection at acquire/release). Built with -fsanitize=thread (races; reports are
 //    parsed by the driver) and with ASan/UBSan (memory safety), same workload.
+//    Dimensions of a run: thread count, script length, delay injection, cross-thread hand-off, save/restore pairs,
+//    the detector's PERIOD while the threads run (enabled / checking / disabled - blocks are entered into the table
+//    in every period), and every public release form (plain, sized, nothrow and the located placement forms
+//    operator delete / delete[] (void*, file, line), called directly and - in the builds with exceptions - by the
+//    compiler when a constructor throws inside new (file, line) T / T[n]).
+//    A mutual-exclusion monitor sits in every callback the detector makes from inside its accounting code
+//    (allocator alloc/free, the platform realloc seam): it counts threads inside at once; when a callback arrives on
+//    a thread that does not own the detector mutex it dwells (bounded) so that the overlap the missing lock permits
+//    actually happens (forced pre-emption) - the verdict is the observed overlap, never the missing owner alone.
 //  * misuse section: each (entry point, misuse kind) inside a fixture test with the real failing
 //    reporter; the mutex wrapper observes whether the lock is still owned at the quiescent point.
 #include "verif.h"
@@ -88,25 +97,55 @@ static void remove_wrapper() { PlatformSpecificMutexLock = real_lock; PlatformSp
 // defaults, so family matching is unchanged) count how many threads are inside an allocator callback at once.
 // One of them can be armed to hold the lock for more than 3 s once (a slow or descheduled owner).
 static std::atomic<int> g_inside(0);
-static std::atomic<uint64_t> g_overlaps(0), g_callbacks(0);
+static std::atomic<uint64_t> g_overlaps(0), g_callbacks(0), g_realloc_seam_calls(0), g_unowned(0);
+static std::atomic<uint32_t> g_unowned_mask(0);          // entry classes whose callbacks arrived without the lock owner being the caller
 static std::atomic<int> g_slow_armed(0);
+// which public entry point the calling worker is in (set by the worker before each call)
+enum EntryClass { EC_NONE, EC_NEW, EC_NEW_NOTHROW, EC_NEW_LOC, EC_NEWARR, EC_NEWARR_NOTHROW, EC_NEWARR_LOC, EC_MALLOC, EC_REALLOC, EC_CALLOC, EC_FREE,
+                  EC_DEL, EC_DEL_SIZED, EC_DEL_NOTHROW, EC_DEL_LOC, EC_DELARR, EC_DELARR_SIZED, EC_DELARR_NOTHROW, EC_DELARR_LOC,
+                  EC_NEW_LOC_THROW, EC_NEWARR_LOC_THROW, EC_N };
+static const char* const EC_NAME[EC_N] = { "?", "new", "new(nothrow)", "new(file,line)", "new[]", "new[](nothrow)", "new[](file,line)", "malloc", "realloc", "calloc", "free",
+                  "delete", "delete(sized)", "delete(nothrow)", "delete(file,line)", "delete[]", "delete[](sized)", "delete[](nothrow)", "delete[](file,line)",
+                  "new(file,line)", "new[](file,line)" };
+static thread_local int t_entry = EC_NONE;
+static void mon_enter(bool releasing) {
+    if (g_inside.fetch_add(1) > 0) g_overlaps++;
+    g_callbacks++;
+    if (t_id > 0 && g_owner.load(std::memory_order_relaxed) != t_id) {
+        // The detector is calling back from inside its accounting code on a worker that does not own the detector
+        // mutex. Nothing is concluded from that alone; the monitor forces the pre-emption the property quantifies
+        // over: stay here (bounded, <= ~10 ms, only until the first overlap of the run) so that another thread can enter.
+        int cls = t_entry;
+        if (cls == EC_NEW_LOC_THROW) cls = releasing ? EC_DEL_LOC : EC_NEW_LOC;              // releasing: the compiler-generated release after a constructor threw
+        if (cls == EC_NEWARR_LOC_THROW) cls = releasing ? EC_DELARR_LOC : EC_NEWARR_LOC;
+        g_unowned++; g_unowned_mask.fetch_or(1u << cls);
+        for (int i = 0; i < 400 && !g_overlaps.load() && g_inside.load() < 2; i++) { struct timespec ts = { 0, 25000 }; nanosleep(&ts, nullptr); }
+    }
+}
+static void mon_leave() { g_inside.fetch_sub(1); }
 struct MonAlloc : public TestMemoryAllocator {
     MonAlloc(const char* n, const char* a, const char* f) : TestMemoryAllocator(n, a, f) {}
     char* alloc_memory(size_t size, const char* file, size_t line) CPPUTEST_OVERRIDE {
-        if (g_inside.fetch_add(1) > 0) g_overlaps++;
-        g_callbacks++;
+        mon_enter(false);
         if (size >= 3001 && size < 3200 && g_slow_armed.load() && g_slow_armed.exchange(0)) { struct timespec ts = { 3, 300000000 }; nanosleep(&ts, nullptr); }
         char* p = TestMemoryAllocator::alloc_memory(size, file, line);
-        g_inside.fetch_sub(1);
+        mon_leave();
         return p;
     }
     void free_memory(char* memory, size_t size, const char* file, size_t line) CPPUTEST_OVERRIDE {
-        if (g_inside.fetch_add(1) > 0) g_overlaps++;
-        g_callbacks++;
+        mon_enter(true);
         TestMemoryAllocator::free_memory(memory, size, file, line);
-        g_inside.fetch_sub(1);
+        mon_leave();
     }
 };
+// reallocMemory does not go through the allocator but through the platform realloc seam (also called with the lock held)
+static void* (*real_realloc)(void*, size_t);
+static void* mon_realloc(void* p, size_t n) {
+    mon_enter(false); g_realloc_seam_calls++;
+    void* r = real_realloc(p, n);
+    mon_leave();
+    return r;
+}
 
 // ------------------------------------------------------------------ recording (non-jumping) reporter
 struct RecReporter : public MemoryLeakFailure {
@@ -127,9 +166,12 @@ struct Worker {
     // results
     uint64_t allocs_ok, reallocs_ok, frees, pattern_errors, null_results, mailed, received;
     uint64_t by_kind[8];
+    uint64_t rel_form[5];          // releases by form: plain, sized, nothrow, located (direct call), located (by the compiler after a constructor threw)
+    uint32_t exec_mask;            // entry classes this worker used
     pthread_t th;
 };
 static Worker g_workers[MAXT + 1];
+static inline void enter(Worker& w, int ec) { t_entry = ec; w.exec_mask |= 1u << ec; }
 static pthread_barrier_t g_barrier;
 
 static void fill(char* p, size_t n, unsigned char tag) { for (size_t i = 0; i < n; i++) p[i] = (char) (tag + (unsigned char) i); }
@@ -139,32 +181,99 @@ static char* do_alloc(vf::Rng& r, int fam, size_t size, Worker& w) {
     switch (fam) {
     case F_NEW:
         switch (r.below(3)) {
-        case 0: w.by_kind[0]++; return (char*) ::operator new(size);
-        case 1: w.by_kind[1]++; return (char*) ::operator new(size, std::nothrow);
-        default: w.by_kind[0]++; return (char*) ::operator new(size, "c10_threads.cpp", (size_t) (100 + w.id));
+        case 0: w.by_kind[0]++; enter(w, EC_NEW); return (char*) ::operator new(size);
+        case 1: w.by_kind[1]++; enter(w, EC_NEW_NOTHROW); return (char*) ::operator new(size, std::nothrow);
+        default: w.by_kind[0]++; enter(w, EC_NEW_LOC); return (char*) ::operator new(size, "c10_threads.cpp", (size_t) (100 + w.id));
         }
     case F_NEWARR:
         switch (r.below(3)) {
-        case 0: w.by_kind[2]++; return (char*) ::operator new[](size);
-        case 1: w.by_kind[3]++; return (char*) ::operator new[](size, std::nothrow);
-        default: w.by_kind[2]++; return (char*) ::operator new[](size, "c10_threads.cpp", (size_t) (200 + w.id));
+        case 0: w.by_kind[2]++; enter(w, EC_NEWARR); return (char*) ::operator new[](size);
+        case 1: w.by_kind[3]++; enter(w, EC_NEWARR_NOTHROW); return (char*) ::operator new[](size, std::nothrow);
+        default: w.by_kind[2]++; enter(w, EC_NEWARR_LOC); return (char*) ::operator new[](size, "c10_threads.cpp", (size_t) (200 + w.id));
         }
     default:
         switch (r.below(4)) {
-        case 0: w.by_kind[4]++; return (char*) cpputest_malloc(size);
-        case 1: w.by_kind[4]++; return (char*) cpputest_malloc_location(size, "c10_threads.cpp", (size_t) (300 + w.id));
-        case 2: w.by_kind[6]++; return (char*) cpputest_realloc(nullptr, size);                         // realloc(NULL, n) is an allocation
-        default: { w.by_kind[7]++; char* p = (char*) cpputest_calloc(1, size); return p; }
+        case 0: w.by_kind[4]++; enter(w, EC_MALLOC); return (char*) cpputest_malloc(size);
+        case 1: w.by_kind[4]++; enter(w, EC_MALLOC); return (char*) cpputest_malloc_location(size, "c10_threads.cpp", (size_t) (300 + w.id));
+        case 2: w.by_kind[6]++; enter(w, EC_REALLOC); return (char*) cpputest_realloc(nullptr, size);                         // realloc(NULL, n) is an allocation
+        default: { w.by_kind[7]++; enter(w, EC_CALLOC); char* p = (char*) cpputest_calloc(1, size); return p; }
         }
     }
 }
-static void do_free(int fam, char* p, Worker& w) {
+// Every public release form of the family: plain, sized (C++14), nothrow, and the located placement forms
+// (void*, const char* file, int|size_t line) declared in MemoryLeakDetectorNewMacros.h.
+static void do_free(vf::Rng& r, int fam, char* p, size_t size, Worker& w) {
     w.frees++;
+    int form = (int) r.below(5);
+    (void) size;
     switch (fam) {
-    case F_NEW: ::operator delete(p); break;
-    case F_NEWARR: ::operator delete[](p); break;
-    default: cpputest_free(p); break;
+    case F_NEW:
+        switch (form) {
+        case 0: w.rel_form[0]++; enter(w, EC_DEL); ::operator delete(p); break;
+#if __cplusplus >= 201402L
+        case 1: w.rel_form[1]++; enter(w, EC_DEL_SIZED); ::operator delete(p, size); break;
+#endif
+        case 2: w.rel_form[2]++; enter(w, EC_DEL_NOTHROW); ::operator delete(p, std::nothrow); break;
+        case 3: w.rel_form[3]++; enter(w, EC_DEL_LOC); ::operator delete(p, "c10_threads.cpp", (int) (500 + w.id)); break;
+        case 4: w.rel_form[3]++; enter(w, EC_DEL_LOC); ::operator delete(p, "c10_threads.cpp", (size_t) (500 + w.id)); break;
+        default: w.rel_form[0]++; enter(w, EC_DEL); ::operator delete(p); break;
+        }
+        break;
+    case F_NEWARR:
+        switch (form) {
+        case 0: w.rel_form[0]++; enter(w, EC_DELARR); ::operator delete[](p); break;
+#if __cplusplus >= 201402L
+        case 1: w.rel_form[1]++; enter(w, EC_DELARR_SIZED); ::operator delete[](p, size); break;
+#endif
+        case 2: w.rel_form[2]++; enter(w, EC_DELARR_NOTHROW); ::operator delete[](p, std::nothrow); break;
+        case 3: w.rel_form[3]++; enter(w, EC_DELARR_LOC); ::operator delete[](p, "c10_threads.cpp", (int) (600 + w.id)); break;
+        case 4: w.rel_form[3]++; enter(w, EC_DELARR_LOC); ::operator delete[](p, "c10_threads.cpp", (size_t) (600 + w.id)); break;
+        default: w.rel_form[0]++; enter(w, EC_DELARR); ::operator delete[](p); break;
+        }
+        break;
+    default:
+        w.rel_form[0]++; enter(w, EC_FREE);
+        if (form & 1) cpputest_free(p); else cpputest_free_location(p, "c10_threads.cpp", (size_t) (700 + w.id));
+        break;
     }
+}
+
+// A located new expression whose constructor throws: the compiler hands the storage back through the matching
+// located placement operator delete / delete[] - the only caller those forms have in real programs. Net effect on
+// the outstanding set: none; the sequence counter advances by one.
+#ifndef VF_NOEXC
+template <size_t N> struct Thrower { char payload[N]; Thrower() { payload[0] = 1; throw 42; } };
+template <size_t N> static bool throwing_new(bool array, bool int_line) {
+    try {
+        Thrower<N>* t;
+        if (array) { t_entry = EC_NEWARR_LOC_THROW; t = int_line ? new ("c10_threads.cpp", 801) Thrower<N>[2] : new ("c10_threads.cpp", (size_t) 802) Thrower<N>[2]; }
+        else { t_entry = EC_NEW_LOC_THROW; t = int_line ? new ("c10_threads.cpp", 803) Thrower<N> : new ("c10_threads.cpp", (size_t) 804) Thrower<N>; }
+        (void) t;
+        return false;
+    } catch (int) { return true; }
+}
+#endif
+static void alloc_then_located_release(vf::Rng& r, Worker& w) {
+    bool array = r.chance(50), int_line = r.chance(50); int sz = (int) r.below(3);
+#ifndef VF_NOEXC
+    if (r.chance(70)) {
+        bool threw = sz == 0 ? throwing_new<1>(array, int_line) : sz == 1 ? throwing_new<24>(array, int_line) : throwing_new<700>(array, int_line);
+        (void) threw;
+        w.exec_mask |= array ? (1u << EC_NEWARR_LOC) | (1u << EC_DELARR_LOC) : (1u << EC_NEW_LOC) | (1u << EC_DEL_LOC);
+        w.allocs_ok++; w.frees++; w.rel_form[4]++;
+        return;
+    }
+#endif
+    // what the compiler generates for that case, spelled out (also possible in the build without exceptions)
+    size_t n = sz == 0 ? 1 : sz == 1 ? 24 : 700;
+    char* p;
+    if (array) { enter(w, EC_NEWARR_LOC); p = int_line ? (char*) ::operator new[](n, "c10_threads.cpp", 805) : (char*) ::operator new[](n, "c10_threads.cpp", (size_t) 806); }
+    else { enter(w, EC_NEW_LOC); p = int_line ? (char*) ::operator new(n, "c10_threads.cpp", 807) : (char*) ::operator new(n, "c10_threads.cpp", (size_t) 808); }
+    if (!p) { w.null_results++; return; }
+    w.allocs_ok++; p[0] = 1;
+    w.frees++; w.rel_form[3]++;
+    if (array) { enter(w, EC_DELARR_LOC); if (int_line) ::operator delete[](p, "c10_threads.cpp", 805); else ::operator delete[](p, "c10_threads.cpp", (size_t) 806); }
+    else { enter(w, EC_DEL_LOC); if (int_line) ::operator delete(p, "c10_threads.cpp", 807); else ::operator delete(p, "c10_threads.cpp", (size_t) 808); }
 }
 
 static void* worker_main(void* arg) {
@@ -173,6 +282,7 @@ static void* worker_main(void* arg) {
     t_id = w.id; t_rng = &rng; t_delay_pct = w.delay_pct;
     pthread_barrier_wait(&g_barrier);
     if (w.long_hold) {          // this allocation makes the (armed) allocator sleep > 3 s while the detector lock is held
+        enter(w, EC_NEWARR);
         char* p = (char*) ::operator new[](3001);
         if (p) { w.allocs_ok++; w.slots[0].p = p; w.slots[0].size = 3001; w.slots[0].fam = F_NEWARR; w.slots[0].tag = 7; fill(p, 3001, 7); }
     }
@@ -192,6 +302,7 @@ static void* worker_main(void* arg) {
                 }
                 continue;
             }
+            if (roll >= 8 && roll < 14) { alloc_then_located_release(rng, w); continue; }
             size_t size = rng.chance(10) ? (size_t) rng.range(0, 3) : (size_t) rng.range(1, rng.chance(20) ? 2000 : 120);
             int fam = (int) rng.below(3);
             char* p = do_alloc(rng, fam, size, w);
@@ -203,7 +314,7 @@ static void* worker_main(void* arg) {
             if (!check(sl.p, sl.size, sl.tag)) w.pattern_errors++;
             if (sl.fam == F_MALLOC && roll < 30) {                           // realloc (grow or shrink), keeps the prefix
                 size_t ns = (size_t) rng.range(1, 300);
-                w.by_kind[5]++;
+                w.by_kind[5]++; enter(w, EC_REALLOC);
                 char* np = (char*) (rng.chance(50) ? cpputest_realloc(sl.p, ns) : cpputest_realloc_location(sl.p, ns, "c10_threads.cpp", (size_t) (400 + w.id)));
                 if (!np) { w.null_results++; continue; }
                 w.reallocs_ok++;
@@ -222,7 +333,7 @@ static void* worker_main(void* arg) {
                     }
                 }
             } else {
-                do_free(sl.fam, sl.p, w);
+                do_free(rng, sl.fam, sl.p, sl.size, w);
                 sl.p = nullptr;
             }
         }
@@ -255,7 +366,10 @@ static void concurrent_run(vf::Ctx& c, bool long_hold) {
     bool use_mail = c.rng.chance(50);
     uint64_t seed = c.rng.next();
     int save_restore_pairs = c.rng.chance(50) ? c.rng.range(1, 2) : 0;
-    c.begin([=] { return vf::J().k("threads", T).k("ops_per_thread", ops).k("delay_pct", delay_pct).k("cross_thread_handoff", use_mail).k("save_restore_pairs_after_switch", save_restore_pairs).k("owner_holds_lock_over_3s_once", long_hold).k("script_seed", (unsigned long long) seed).str(); });
+    // the detector's period while the threads run: blocks are entered into the table (and need the lock) in every period
+    static const char* const PERIOD[] = { "enabled", "checking", "disabled" };
+    int period = (int) c.rng.below(3);
+    c.begin([=] { return vf::J().k("threads", T).k("detector_period", PERIOD[period]).k("ops_per_thread", ops).k("delay_pct", delay_pct).k("cross_thread_handoff", use_mail).k("save_restore_pairs_after_switch", save_restore_pairs).k("owner_holds_lock_over_3s_once", long_hold).k("script_seed", (unsigned long long) seed).str(); });
 
     // private detector, created and destroyed with the overloads off
     MemoryLeakWarningPlugin::saveAndDisableNewDeleteOverloads();
@@ -267,7 +381,7 @@ static void concurrent_run(vf::Ctx& c, bool long_hold) {
     RecReporter* rep = new RecReporter;
     MemoryLeakDetector* det = new MemoryLeakDetector(rep);
     MemoryLeakWarningPlugin::setGlobalDetector(det, rep);
-    det->enable();
+    switch (period) { case 0: det->enable(); break; case 1: det->enable(); det->startChecking(); break; default: det->disable(); break; }
     unsigned seq0 = det->getCurrentAllocationNumber();
 
     for (int i = 0; i < MAILBOXES; i++) { g_mail[i].p = 0; }
@@ -280,7 +394,8 @@ static void concurrent_run(vf::Ctx& c, bool long_hold) {
     }
     static MonAlloc monNew("Standard New Allocator", "new", "delete"), monArr("Standard New [] Allocator", "new []", "delete []"), monMal("Standard Malloc Allocator", "malloc", "free");
     setCurrentNewAllocator(&monNew); setCurrentNewArrayAllocator(&monArr); setCurrentMallocAllocator(&monMal);
-    g_inside = 0; g_overlaps = 0; g_callbacks = 0; g_slow_armed = long_hold ? 1 : 0;
+    real_realloc = PlatformSpecificRealloc; PlatformSpecificRealloc = mon_realloc;
+    g_inside = 0; g_overlaps = 0; g_callbacks = 0; g_realloc_seam_calls = 0; g_unowned = 0; g_unowned_mask = 0; g_slow_armed = long_hold ? 1 : 0;
     MemoryLeakWarningPlugin::restoreNewDeleteOverloads();
     MemoryLeakWarningPlugin::turnOnThreadSafeNewDeleteOverloads();
     // users bracket third-party code with save/restore; thread-safe mode must survive such a pair (no allocation in between)
@@ -291,11 +406,27 @@ static void concurrent_run(vf::Ctx& c, bool long_hold) {
     MemoryLeakWarningPlugin::turnOnDefaultNotThreadSafeNewDeleteOverloads();
     MemoryLeakWarningPlugin::saveAndDisableNewDeleteOverloads();
     remove_wrapper();
+    PlatformSpecificRealloc = real_realloc;
     setCurrentNewAllocatorToDefault(); setCurrentNewArrayAllocatorToDefault(); setCurrentMallocAllocatorToDefault();
     g_slow_armed = 0;
 
     // ---- quiescent point: model vs detector
-    if (g_overlaps.load()) c.violation("critical-section-overlap", std::to_string(g_overlaps.load()) + " allocator callbacks (made while the detector lock is held) started while another thread was inside one" + (long_hold ? " [one owner held the lock for 3.3 s]" : ""));
+    if (g_overlaps.load()) {
+        // Key: which public entry points reached the detector's accounting code on a thread that did not own the detector
+        // mutex (none: the lock itself let two owners in). "all" when every entry class used in the run did.
+        std::string key = "critical-section-overlap";
+        uint32_t mask = g_unowned_mask.load();
+        if (mask) {
+            std::string names; int n = 0; uint32_t used = 0;
+            for (int i = 1; i <= T; i++) used |= g_workers[i].exec_mask;
+            for (int e = 1; e < EC_NEW_LOC_THROW; e++) if (mask & (1u << e)) { names += (n++ ? "," : ""); names += EC_NAME[e]; }
+            bool all = n >= 3 && (mask & used) == used;
+            key += ":reached-without-the-lock=" + (all ? std::string("every-entry-point-used") : names);
+            if (all) key += std::string(":detector-period=") + PERIOD[period];
+        }
+        c.violation(key, std::to_string(g_overlaps.load()) + " callbacks from inside the detector's accounting code (allocator alloc/free, platform realloc - made while the detector lock is held) started while another thread was inside one; "
+                    + std::to_string(g_unowned.load()) + " callbacks arrived on a thread that did not own the detector mutex; detector period " + PERIOD[period] + (long_hold ? " [one owner held the lock for 3.3 s]" : ""));
+    }
 
     uint64_t allocs = 0, reallocs = 0, held = 0, pattern_errors = 0, mailed = 0, received = 0, nulls = 0;
     std::vector<size_t> held_sizes;
@@ -347,7 +478,14 @@ static void concurrent_run(vf::Ctx& c, bool long_hold) {
     MemoryLeakWarningPlugin::restoreNewDeleteOverloads();
 
     // evidence (only here: the counters' map nodes must be allocated and freed under the same overload regime)
-    c.count("allocator_callbacks_under_lock", g_callbacks.load());
+    c.count("allocator_callbacks_under_lock", g_callbacks.load() - g_realloc_seam_calls.load());
+    c.count("realloc_seam_calls_under_lock", g_realloc_seam_calls.load());
+    c.count("callbacks_without_lock_owner", g_unowned.load());
+    c.count(std::string("runs_in_detector_period_") + PERIOD[period]);
+    c.count(std::string("thread_ops_in_detector_period_") + PERIOD[period], (uint64_t) T * (uint64_t) ops);
+    { uint64_t f[5] = { 0, 0, 0, 0, 0 }; for (int i = 1; i <= T; i++) for (int k = 0; k < 5; k++) f[k] += g_workers[i].rel_form[k];
+      c.count("releases_plain_form", f[0]); c.count("releases_sized_form", f[1]); c.count("releases_nothrow_form", f[2]);
+      c.count("releases_located_placement_form_direct", f[3]); c.count("releases_located_placement_form_after_constructor_throw", f[4]); }
     if (long_hold) c.count("runs_with_owner_holding_lock_over_3s");
     c.count("lock_acquisitions", g_acquisitions);
     c.count("lock_handoffs_between_threads", g_handoffs);
